@@ -400,7 +400,7 @@ pub fn run(tier: &str, rec: &Recorder) -> RunOutput {
     let start = Instant::now();
     let mut out = RunOutput::new("fault_enumeration");
     let deadline = start + Duration::from_secs_f64(wall_cap_s(tier));
-    let wd = Watchdog::start("C19", 120.0);
+    let wd = Watchdog::start("C19", 20.0);
     let total = Mutex::new(Counters::default());
     let capped = std::sync::atomic::AtomicBool::new(false);
     let bs = bases();
